@@ -14,7 +14,9 @@ var (
 	reFill   = regexp.MustCompile(`<(b\d+)\|(-?\d+)\|(-?\d+)\|([CA-]+)\|(-?\d+)>`)
 	reExt    = regexp.MustCompile(`^\|(b\d+):e(\d+)\|$`)
 	reText   = regexp.MustCompile(`^T\|`)
-	reDecTok = regexp.MustCompile(`\((b\d+)([pa])(\d+)(x*|!C|!A)\)`)
+	reTokPfx = regexp.MustCompile(`^(?:T\|[a-z0-9]+\|[0-9]+)+`)
+	reTok    = regexp.MustCompile(`T\|[a-z0-9]+\|[0-9]+`)
+	reDecTok = regexp.MustCompile(`\((b\d+)([pa])(\d+)(x*|!C|!A|!E)\)`)
 )
 
 // parseFrame turns the bytes of one Write on the output into a frame event:
@@ -32,9 +34,7 @@ func parseFrame(p []byte) Event {
 	if strings.Contains(s, "\x1b[") && reCUU.MatchString(s) {
 		malformed = append(malformed, "second-cuu")
 	}
-	if len(s) > 0 && !strings.HasSuffix(s, "\n") {
-		malformed = append(malformed, "no-trailing-newline")
-	}
+	terminated := strings.HasSuffix(s, "\n")
 	lines := strings.Split(s, "\n")
 	if len(lines) > 0 && lines[len(lines)-1] == "" {
 		lines = lines[:len(lines)-1]
@@ -46,8 +46,30 @@ func parseFrame(p []byte) Event {
 	pendingExt := map[string]int{} // ext rows seen before their bar row (reversed extender)
 	maxw := 0
 	seenBar := false
-	for _, raw := range lines {
+	ttok, tnl := 0, 0 // the text region as tokens: lines written through the container and line feeds
+	for li, raw := range lines {
 		ln := reAnsi.ReplaceAllString(raw, "")
+		hasNL := terminated || li < len(lines)-1
+		if ln == "" && !seenBar && hasNL {
+			tnl++ // a line feed of its own (the second chunk of a line whose first chunk an earlier frame carried)
+			continue
+		}
+		if pfx := reTokPfx.FindString(ln); pfx != "" {
+			if seenBar {
+				malformed = append(malformed, "text-below-bar")
+			}
+			toks := reTok.FindAllString(pfx, -1)
+			text = append(text, toks...)
+			ttok += len(toks)
+			if len(pfx) == len(ln) {
+				if hasNL {
+					tnl++
+				}
+				continue
+			}
+			// a chunk without a line feed, and the frame's first row right behind it
+			ln = ln[len(pfx):]
+		}
 		w := runewidth.StringWidth(ln)
 		if w > maxw {
 			maxw = w
@@ -96,6 +118,9 @@ func parseFrame(p []byte) Event {
 		}
 		malformed = append(malformed, "junk:"+strconv.Quote(raw))
 	}
+	if seenBar && !terminated {
+		malformed = append(malformed, "no-trailing-newline")
+	}
 	for b := range pendingExt {
 		malformed = append(malformed, "orphan-ext:"+b)
 	}
@@ -103,6 +128,8 @@ func parseFrame(p []byte) Event {
 		delete(g, "extrev")
 	}
 	e["text"] = text
+	e["ttok"] = ttok
+	e["tnl"] = tnl
 	e["groups"] = groups
 	e["ngroups"] = len(groups)
 	e["maxw"] = maxw
@@ -116,7 +143,11 @@ func decTokens(s string) []Event {
 	out := []Event{}
 	for _, m := range reDecTok.FindAllStringSubmatchIndex(s, -1) {
 		name := s[m[2]:m[3]] + s[m[4]:m[5]] + s[m[6]:m[7]]
-		out = append(out, Event{"d": name, "from": runewidth.StringWidth(s[:m[0]]), "to": runewidth.StringWidth(s[:m[1]])})
+		sfx := "" // which message, if any, stands in for the decorator: on-complete, on-abort, on-either
+		if t := s[m[8]:m[9]]; strings.HasPrefix(t, "!") {
+			sfx = t[1:]
+		}
+		out = append(out, Event{"d": name, "from": runewidth.StringWidth(s[:m[0]]), "to": runewidth.StringWidth(s[:m[1]]), "sfx": sfx})
 	}
 	return out
 }
